@@ -409,7 +409,10 @@ func buildRaw(root string, v Vars, o buildOpts) *buildResult {
 			be.mu.Lock()
 			be.fail[o.RetryAfter] = true
 			be.mu.Unlock()
-			proj.Run(l, nil) // fails if that body runs
+			err1 := proj.Run(l, nil) // fails if that body runs
+			if os.Getenv("VERIF_DEBUG") != "" {
+				fmt.Fprintln(os.Stderr, "DEBUG first run:", err1, evStrings(rec.ev))
+			}
 			be.mu.Lock()
 			delete(be.fail, o.RetryAfter)
 			be.mu.Unlock()
